@@ -350,6 +350,11 @@ void BinaryFileWriter::write_all_props()
         chunk_header.span.first = 0;
         chunk_header.span.count = prop.prop->size();
         chunk_header.idx = idx++;
+        if (chunk_header.span.count == 0) {
+            // no entity of that kind: the directory entry says all there is
+            // (and serialize() requires a non-empty range)
+            continue;
+        }
         write(encoder, chunk_header);
 
         prop.encoder->serialize(prop.prop, chunk_buffer_, chunk_header.span.first, chunk_header.span.first + chunk_header.span.count);
